@@ -261,6 +261,11 @@ fn spec_for_inner(prop: &str, thorough: bool, rng: &mut Rng) -> RunSpec {
             g.lying_hints = true;
             g.max_hint = if world == "M16" || world == "Mpod" { 60000 } else { 3000 };
             g.macro_den = *rng.pick(&[12, 25]);
+            // "every program" includes programs whose callbacks panic and that go on using the collection
+            // (catch_unwind is safe code): a fifth of the runs carry random callback panics
+            if rng.below(5) == 0 {
+                g.fault_pct = 8;
+            }
             RunSpec { world, cfg, gen: g, n_ops }
         }
         "C03" => {
@@ -466,7 +471,8 @@ pub fn owns(prop: &str, v: &Violation) -> bool {
     let functional = starts(c, "ret/") || starts(c, "contents/") || starts(c, "len/") || starts(c, "sweep/") || starts(c, "panic/");
     match prop {
         "C01" => (functional || starts(c, "entry/") || starts(c, "retain/visits") || starts(c, "inv/I6")) && MAP_CORE_OPS.contains(&k),
-        "C02" => safety || starts(c, "panic/") || starts(c, "alloc/size-mismatch") || starts(c, "alloc/over-reservation"),
+        // (a dead element that is still stored after an unwind is a dangling reference waiting to be handed out)
+        "C02" => safety || starts(c, "postpanic/dead-element") || starts(c, "panic/") || starts(c, "alloc/size-mismatch") || starts(c, "alloc/over-reservation"),
         // an element that is still stored after it was dropped, or that vanished without being dropped, while a
         // callback panic unwinds is the exactly-once statement under unwinding
         "C03" => starts(c, "inv/I2") || starts(c, "postpanic/dead-element") || starts(c, "postpanic/leaked-element") || starts(c, "ledger/") || starts(c, "alloc/leak") || starts(c, "alloc/double-free") || starts(c, "alloc/bad-free") || starts(c, "alloc/layout-mismatch") || starts(c, "alloc/size-mismatch") || starts(c, "cap/alloc-on-new"),
